@@ -115,6 +115,10 @@ class StrMixin:
             xs = xs.val
         if not isinstance(xs, VList) or xs.elem != "str":
             raise GenError("join over %r" % (xs,))
+        so = getattr(xs, "slice_of", None)
+        if so is not None and not isinstance(xs.elem, tuple):
+            base, off = so
+            return self.wrap(self.mk_joinr(self.z(sep), base, off, z3.simplify(off + self.z(xs.length))), "str")
         return self.wrap(self.mk_joinr(self.z(sep), xs.arr, z3.IntVal(0), self.z(xs.length)), "str")
 
     def mk_joinr(self, sep, arr, a, b, depth=2):
@@ -181,6 +185,8 @@ class StrMixin:
         self.pc.append(self.mk_joinr(sep, arr, z3.IntVal(0), n) == s)
         cont = self.sfun("contains", S, S, Bool)
         self.pc.append((n == 1) == z3.Not(cont(s, sep)))
+        # no piece contains the separator (line model: the pieces are exactly the sep-free stretches)
+        self.hyps.append(FAll("k", 0, n, lambda c, arr=arr: FT(z3.Not(cont(z3.Select(arr, c), sep))), "split pieces"))
         return VList(n, arr, "str")
 
     # ---- indexing / slicing of strings
